@@ -5,6 +5,7 @@ import (
 	"bytes"
 	"encoding/json"
 	"fmt"
+	"reflect"
 	"strings"
 	"time"
 
@@ -16,30 +17,66 @@ import (
 )
 
 type profile struct {
-	ncues   []int
-	starts  []int64
-	ends    []int // end form: 0 +1s, 1 +1ms, 2 +500ms, 3 zero-length, 4 max
-	nlines  []int
-	nruns   []int
-	styles  []srt.Style
-	texts   []string
-	render  bool // explore rendering choices
+	ncues  []int
+	starts []int64
+	ends   []int // end form: 0 +1s, 1 +1ms, 2 +500ms, 3 zero-length, 4 max; 5 +50ms, 6 +10ms, 7 +5ms, 8 +999ms, 9 +1h
+	nlines []int
+	nruns  []int
+	styles []srt.Style
+	texts  []string
+	render bool // explore rendering choices
+	wide   bool // rendering choices range over the widened value tables
 }
 
-var allStyles = []srt.Style{{}, {B: true}, {I: true}, {U: true}, {Color: "#ff0000"}, {B: true, I: true}, {B: true, I: true, U: true, Color: "red"}, {U: true, Color: "blue"}}
-var allTexts = []string{"x", "a b", " lead", "trail ", "7", "&", "<", "a<b", "&amp;", "a\u00a0b", "\u00e9", "e\u0301", "\U0001F600", "a\tb", "a>b", "\"q\"", "1 > 0 -> ok", "\u00a0edge\u00a0", "\u00a0", "&lt;", "&nbsp;", "<3", "a -> b"}
-var allStarts = []int64{1000, 0, 1, 999, 1500, 59999, 60000, 3599999, 3600000, 35999999, 36000000, 86399999, 359998000}
+// The first 8 styles / 23 texts / 13 starts are the tables of the earlier rounds (kept in place: option 0 is
+// the baseline and the B=4 ball of the thorough tier stays on them); the rest are the widened value domains.
+var allStyles = []srt.Style{{}, {B: true}, {I: true}, {U: true}, {Color: "#ff0000"}, {B: true, I: true}, {B: true, I: true, U: true, Color: "red"}, {U: true, Color: "blue"},
+	// remaining emphasis combinations and colour spellings: upper-case hex, 3- and 8-digit hex, mixed-case name, functional notation, bare digits
+	{B: true, U: true}, {I: true, U: true}, {B: true, I: true, U: true}, {B: true, Color: "#FF0000"}, {I: true, Color: "#F00"}, {Color: "Yellow"},
+	{Color: "#ff000080"}, {I: true, U: true, Color: "rgb(255,0,0)"}, {B: true, U: true, Color: "ff0000"}, {B: true, I: true, Color: "#AbCdEf"}, {Color: "0"}}
+
+const nOldStyles, nOldTexts, nOldStarts = 8, 23, 13
+
+var allTexts = []string{"x", "a b", " lead", "trail ", "7", "&", "<", "a<b", "&amp;", "a\u00a0b", "\u00e9", "e\u0301", "\U0001F600", "a\tb", "a>b", "\"q\"", "1 > 0 -> ok", "\u00a0edge\u00a0", "\u00a0", "&lt;", "&nbsp;", "<3", "a -> b",
+	// entity look-alikes as literal text, raw ampersands
+	"a & b", "&#39;", "&gt;", "&quot;", "&amp;amp;", "&&", "&;", "&lt", "&AMP;", "&amp", "AT&T", "& ", "&lt;b&gt;",
+	// markup look-alikes as literal text
+	"<b>", "<i>x</i>", "</b>", "<font color=\"red\">", "<!--", "</", "{\\an8}x", "{\\an8}",
+	// cue-number and timing look-alikes, leading digits
+	"0", "1", "+5", "-5", "007", "1a", "7 up", "99999999999999999999", "00:00:01,000", "00:00:01,000 -> 00:00:02,000", "--", ">", "- ->", "x--", "->",
+	// white space inside and at the edges
+	"a  b", "\tlead", "trail\t", "  two  ", "a\u3000b", "\u00a0\u00a0", "a\u00a0\u00a0b", "a\u00a0", "\u00a0a",
+	// Unicode: byte-order-mark character, right-to-left, zero-width joiner sequence, lone combining mark, zero-width space,
+	// right-to-left override, full-width digits, 3-byte, last code point
+	"\ufeffx", "a\ufeffb", "\ufeff", "\u05e9\u05dc\u05d5\u05dd", "\U0001F468\u200d\U0001F469", "\u0301x", "\u200b", "\u202eabc", "\uff11\uff12", "\u20ac", "\U0010FFFF",
+	// punctuation of the format
+	"'", "\"", "\\", "/", "=", ";", ":", ",", ".", "a=b", "x:1 y:2", "X1:1 X2:2"}
+
+var allStarts = []int64{1000, 0, 1, 999, 1500, 59999, 60000, 3599999, 3600000, 35999999, 36000000, 86399999, 359998000,
+	// fraction boundaries (005, 010, 050, 090, 099, 100, 900, 990), 9/10 and 59 boundaries of seconds, minutes, hours, 23/24 h, >= 100 h
+	5, 10, 50, 90, 99, 100, 900, 990, 9000, 10000, 59000, 540000, 600000, 3540000, 32400000, 82800000, 86400000, 356400000, 360000000, 445506789, 3599999999}
 
 const maxMs = 359999999
 
+var arrowsOld = []string{" --> ", "-->", "  -->  ", "\t-->\t"}
+var arrowsWide = []string{" --> ", "-->", "  -->  ", "\t-->\t", " -->", "--> ", "   -->   ", " \t --> \t ", " -->\t", "\t--> "}
+var coordsOld = []string{"", " X1:1 X2:2 Y1:3 Y2:4"}
+var coordsWide = []string{"", " X1:1 X2:2 Y1:3 Y2:4", " X1:100,5 Y1:2.5", "\tX1:1", " ", "\t", "  ", " X1:0 X2:0 Y1:0 Y2:0", " X1:-10 X2:1920 Y1:0042 Y2:1080", "  X1:1  X2:2", " X1:1 X2:2 Y1:3 Y2:4 ", " 00:00:09,000", " x"}
+var blankForms = []string{"", " ", "\t", "  "}
+
 func fullProfile(thorough bool) profile {
-	p := profile{ncues: []int{1, 0, 2}, starts: allStarts, ends: []int{0, 1, 2, 3, 4}, nlines: []int{1, 2}, nruns: []int{1, 2}, styles: allStyles, texts: allTexts, render: true}
+	p := profile{ncues: []int{1, 0, 2}, starts: allStarts, ends: []int{0, 1, 2, 3, 4, 5, 6, 7, 8, 9}, nlines: []int{1, 2}, nruns: []int{1, 2}, styles: allStyles, texts: allTexts, render: true, wide: true}
 	if thorough {
 		p.ncues = []int{1, 0, 2, 3}
 		p.nlines = []int{1, 2, 3}
 		p.nruns = []int{1, 2, 3}
 	}
 	return p
+}
+
+// smallProfile: the value tables of the earlier rounds (B=4 ball of the thorough tier).
+func smallProfile() profile {
+	return profile{ncues: []int{1, 0, 2}, starts: allStarts[:nOldStarts], ends: []int{0, 1, 2, 3, 4}, nlines: []int{1, 2}, nruns: []int{1, 2}, styles: allStyles[:nOldStyles], texts: allTexts[:nOldTexts], render: true}
 }
 
 func coreProfile() profile {
@@ -51,7 +88,14 @@ type Case struct {
 	Doc    srt.Doc    `json:"doc"`
 	Render srt.Render `json:"render"`
 	Dir    string     `json:"dir"`
+	// WForm: how the library value handed to the writer spells "no styling": 0 nil InlineStyle, 1 an empty
+	// StyleAttributes, 2 additionally SRTColor pointing to "" wherever a run has no colour
+	WForm int `json:"wform,omitempty"`
+
+	skipWrite bool // rendering products: the model was already handed to the writer under the default rendering
 }
+
+var endOffsets = []int64{1000, 1, 500, 0, -1, 50, 10, 5, 999, 3600000}
 
 func gen(c *explore.C, p profile, coreRender bool) Case {
 	n := explore.Pick(c, "ncues", p.ncues...)
@@ -59,20 +103,17 @@ func gen(c *explore.C, p profile, coreRender bool) Case {
 	for k := 0; k < n; k++ {
 		cue := srt.Cue{}
 		cue.Start = explore.Pick(c, "start", p.starts...)
-		switch explore.Pick(c, "end", p.ends...) {
-		case 0:
-			cue.End = cue.Start + 1000
-		case 1:
-			cue.End = cue.Start + 1
-		case 2:
-			cue.End = cue.Start + 500
-		case 3:
-			cue.End = cue.Start
+		switch e := explore.Pick(c, "end", p.ends...); e {
 		case 4:
 			cue.End = maxMs
+		default:
+			cue.End = cue.Start + endOffsets[e]
 		}
-		if cue.End > maxMs {
+		if cue.End > maxMs && cue.Start <= maxMs {
 			cue.End = maxMs
+		}
+		if cue.End < cue.Start {
+			cue.End = cue.Start
 		}
 		nl := explore.Pick(c, "nlines", p.nlines...)
 		for l := 0; l < nl; l++ {
@@ -88,32 +129,56 @@ func gen(c *explore.C, p profile, coreRender bool) Case {
 		d = append(d, cue)
 	}
 	r := srt.DefaultRender(n)
+	wf := 0
 	if p.render {
+		nIndex, nQuote, nSpaces, arrows, coords := 4, 4, 4, arrowsOld, coordsOld
+		if p.wide {
+			nIndex, nQuote, nSpaces, arrows, coords = srt.NIndexForms, srt.NFontForms, srt.NLineSpaces, arrowsWide, coordsWide
+		}
 		r.EOL = explore.Pick(c, "eol", "\n", "\r\n", "\r")
 		r.BOM = c.Bool("bom")
 		for k := 0; k < n; k++ {
-			r.Index[k] = c.Choose("index", 4)
+			r.Index[k] = c.Choose("index", nIndex)
 		}
-		r.BlankBetw = explore.Pick(c, "blank", 1, 2, 3)
-		r.EOF = c.Choose("eof", 5)
+		if p.wide {
+			r.BlankBetw = explore.Pick(c, "blank", 1, 2, 3, 4, 10)
+			r.EOF = explore.Pick(c, "eof", 0, 1, 2, 3, 4, 5, 11)
+		} else {
+			r.BlankBetw = explore.Pick(c, "blank", 1, 2, 3)
+			r.EOF = c.Choose("eof", 5)
+		}
 		r.Sep = explore.Pick(c, "sep", ",", ".")
 		r.FracDigits = explore.Pick(c, "frac", 3, 2, 1)
-		r.HourDigits = explore.Pick(c, "hours", 2, 1, 3)
-		r.Arrow = explore.Pick(c, "arrow", " --> ", "-->", "  -->  ", "\t-->\t")
-		r.Coords = explore.Pick(c, "coords", "", " X1:1 X2:2 Y1:3 Y2:4")
+		if p.wide {
+			r.HourDigits = explore.Pick(c, "hours", 2, 1, 3, 4)
+		} else {
+			r.HourDigits = explore.Pick(c, "hours", 2, 1, 3)
+		}
+		r.Arrow = explore.Pick(c, "arrow", arrows...)
+		r.Coords = explore.Pick(c, "coords", coords...)
 		r.Lazy = c.Bool("lazy")
 		r.LeaveOpen = c.Bool("leaveopen")
 		r.UpperTags = c.Bool("upper")
-		r.ColorQuote = c.Choose("quote", 4)
-		r.LineSpaces = c.Choose("linespaces", 4)
+		r.ColorQuote = c.Choose("quote", nQuote)
+		r.LineSpaces = c.Choose("linespaces", nSpaces)
 		r.NBSPEntity = c.Bool("nbspentity")
+		if p.wide {
+			r.BlankForm = explore.Pick(c, "blankform", blankForms...)
+			r.HeadPad = c.Choose("headpad", 4)
+			r.TagOrder = c.Choose("tagorder", srt.NTagOrders)
+			r.CloseSame = c.Bool("closesame")
+			r.PlainFont = c.Choose("plainfont", 4)
+			r.StrayClose = c.Choose("strayclose", 5)
+			r.RawAmp = c.Bool("rawamp")
+			wf = c.Choose("wform", 3)
+		}
 	} else if coreRender {
 		r.EOL = explore.Pick(c, "eol", "\n", "\r\n", "\r")
 		r.Index[0] = c.Choose("index", 2)
 		r.EOF = explore.Pick(c, "eof", 0, 1, 2)
 		r.Lazy = c.Bool("lazy")
 	}
-	return Case{Doc: d, Render: r}
+	return Case{Doc: d, Render: r, WForm: wf}
 }
 
 // FromSubs extracts the SubRip denotation from a library value.
@@ -144,8 +209,8 @@ func FromSubs(s *astisub.Subtitles) (srt.Doc, string) {
 	return d, odd
 }
 
-// ToSubs builds a library value from a model document.
-func ToSubs(d srt.Doc) *astisub.Subtitles {
+// ToSubs builds a library value from a model document (wform: see Case.WForm).
+func ToSubs(d srt.Doc, wform int) *astisub.Subtitles {
 	s := astisub.NewSubtitles()
 	for _, c := range d {
 		it := &astisub.Item{StartAt: time.Duration(c.Start) * time.Millisecond, EndAt: time.Duration(c.End) * time.Millisecond}
@@ -153,9 +218,9 @@ func ToSubs(d srt.Doc) *astisub.Subtitles {
 			ln := astisub.Line{}
 			for _, r := range l {
 				li := astisub.LineItem{Text: r.Text}
-				if r.Style != (srt.Style{}) {
+				if r.Style != (srt.Style{}) || wform > 0 {
 					a := &astisub.StyleAttributes{SRTBold: r.B, SRTItalics: r.I, SRTUnderline: r.U}
-					if r.Color != "" {
+					if r.Color != "" || wform == 2 {
 						col := r.Color
 						a.SRTColor = &col
 					}
@@ -247,8 +312,8 @@ func representable(d srt.Doc) bool {
 }
 
 // CheckWrite: writer output must denote the model to the library reader and to the independent decoder.
-func CheckWrite(d srt.Doc) (key, msg string, outcome uint64) {
-	s := ToSubs(d)
+func CheckWrite(d srt.Doc, wform int) (key, msg string, outcome uint64) {
+	s := ToSubs(d, wform)
 	var buf bytes.Buffer
 	var err error
 	pan := ""
@@ -296,43 +361,77 @@ func CheckWrite(d srt.Doc) (key, msg string, outcome uint64) {
 	return "", "", core.Hash64(string(out))
 }
 
-func run(c *core.Ctx) {
-	bound := 2
-	if c.Tier == core.Thorough {
-		bound = 3
+// wellFormed: the model is inside the property's quantifier - no line whose text contains the timing arrow
+// (adjacent runs such as "--" and ">" would otherwise spell one).
+func wellFormed(d srt.Doc) bool {
+	for _, c := range d {
+		for _, l := range c.Lines {
+			t := ""
+			for _, r := range l {
+				t += r.Text
+			}
+			if strings.Contains(t, "-->") {
+				return false
+			}
+		}
 	}
-	full := fullProfile(c.Tier == core.Thorough)
+	return true
+}
+
+func oneCue(start, end int64, text string) srt.Doc {
+	return srt.Doc{{Start: start, End: end, Lines: []srt.Line{{{Text: text}}}}}
+}
+
+// role places the instant T: 0 start (end = T+1s), 1 end (start = 0), 2 both (zero-length cue)
+func byRole(role int, t int64) (int64, int64) {
+	switch role {
+	case 1:
+		return 0, t
+	case 2:
+		return t, t
+	}
+	return t, t + 1000
+}
+
+var hourTable = []int64{0, 1, 9, 10, 23, 24, 99, 100, 123, 999}
+var minSecTable = []int64{0, 1, 9, 10, 59}
+var fracTable = []int64{0, 1, 5, 9, 10, 50, 90, 99, 100, 500, 900, 990, 999, 123, 120, 103}
+var colourTable = []string{"#ff0000", "#FF0000", "#F00", "#f00", "red", "Yellow", "RED", "#ff000080", "rgb(255,0,0)", "rgba(0,0,0,0.5)", "transparent", "ff0000", "#", "0", "#AbCdEf", "r\u00f6d"}
+var joinTable = []string{"x", "amp;", "lt;", "nbsp;", "#39;", ";", ">", "b>", "/b>", "&", "<", "\u00a0", " a", "a ", "7", "\ufeff", "\u0301", "->", "-", "&amp;", "--"}
+var manyCounts = []int{9, 10, 11, 99, 100, 101, 255, 256, 257, 999, 1000, 1001}
+
+func biuc(colours ...string) []srt.Style {
+	var o []srt.Style
+	for _, col := range colours {
+		for m := 0; m < 8; m++ {
+			o = append(o, srt.Style{B: m&1 != 0, I: m&2 != 0, U: m&4 != 0, Color: col})
+		}
+	}
+	return o
+}
+
+// enumerate drives every sub-space of the check through emit (shared by the check and by the harness self-test).
+func enumerate(thorough bool, bound int, emit func(sub string, x *explore.C, cs Case) bool) {
+	full := fullProfile(thorough)
 	// The body only GENERATES the case (cheap, deterministic); the visit callback executes it on the
 	// real code if this worker owns it.
 	var cs Case
 	visit := func(sub string) func(x *explore.C) bool {
 		return func(x *explore.C) bool {
-			if !c.Mine() {
+			if !wellFormed(cs.Doc) {
 				return true
 			}
-			cs := cs
-			den := cs.Doc.Denote()
-			key, msg, out := CheckRead(cs)
-			nt := uint64(0)
-			if explore.Deviations(x.Trace) > 0 {
-				nt = core.Hash64("r", den, fmt.Sprintf("%+v", cs.Render))
+			return emit(sub, x, cs)
+		}
+	}
+	// rendering products: the writer sees the model once (default rendering), not once per rendering
+	rvisit := func(sub string) func(x *explore.C) bool {
+		return func(x *explore.C) bool {
+			if !wellFormed(cs.Doc) {
+				return true
 			}
-			cs.Dir = "read"
-			c.Record(sub+".read", out, nt, func() interface{} {
-				return map[string]interface{}{"choices": x.Trace, "bytes": string(cs.Doc.Bytes(cs.Render))}
-			})
-			if key != "" {
-				c.Violate("read", key, msg, cs, explore.Deviations(x.Trace)*1000+len(cs.Doc.Bytes(cs.Render)))
-			}
-			if representable(cs.Doc) {
-				key, msg, out = CheckWrite(cs.Doc)
-				c.Record(sub+".write", out, core.Hash64("w", den), nil)
-				if key != "" {
-					cs.Dir = "write"
-					c.Violate("write", key, msg, cs, explore.Deviations(x.Trace)*1000+len(den))
-				}
-			}
-			return c.Evals%4096 != 0 || !c.Expired()
+			cs.skipWrite = !reflect.DeepEqual(cs.Render, srt.DefaultRender(len(cs.Doc)))
+			return emit(sub, x, cs)
 		}
 	}
 	// (1) core product: the full cartesian product of a tiny grammar
@@ -396,13 +495,287 @@ func run(c *core.Ctx) {
 		r.Coords = explore.Pick(x, "coords", "", " X1:1 X2:2 Y1:3 Y2:4", " X1:100,5 Y1:2.5", "\tX1:1")
 		cs = Case{Doc: srt.Doc{cue}, Render: r}
 	}, visit("times"))
+
+	// ---- value-domain products (round 9) ----
+	// (1f) hours x minutes x seconds, each over its digit-count and range boundaries (0,1,9,10,59; hours also 23,24,99
+	// and >= 100), as start, as end, as both; written with 2, 1 (h < 10) or 3 (h < 100) hour digits
+	explore.Explore(-1, func(x *explore.C) {
+		h := explore.Pick(x, "h", hourTable...)
+		m := explore.Pick(x, "m", minSecTable...)
+		s := explore.Pick(x, "s", minSecTable...)
+		st, en := byRole(x.Choose("role", 3), ((h*60+m)*60+s)*1000)
+		r := srt.DefaultRender(1)
+		r.HourDigits = explore.Pick(x, "hours", 2, 1, 3, 4)
+		cs = Case{Doc: oneCue(st, en, "x"), Render: r}
+	}, rvisit("hms"))
+	// (1g) fraction: every leading/trailing-zero pattern of the millisecond field (005, 050, 500, 010, 100, 990, ...) x
+	// 3/2/1 digits (where the value allows) x ',' or '.' x role x seconds 0 or 59 x trailing coordinates
+	explore.Explore(-1, func(x *explore.C) {
+		f := explore.Pick(x, "f", fracTable...)
+		s := explore.Pick(x, "s", int64(1), 59, 0)
+		st, en := byRole(x.Choose("role", 3), s*1000+f)
+		r := srt.DefaultRender(1)
+		r.FracDigits = explore.Pick(x, "frac", 3, 2, 1)
+		r.Sep = explore.Pick(x, "sep", ",", ".")
+		r.Coords = explore.Pick(x, "coords", "", " X1:1 X2:2 Y1:3 Y2:4", " ")
+		cs = Case{Doc: oneCue(st, en, "x"), Render: r}
+	}, rvisit("frac"))
+	// (1h) every instant h x m x s x f of the four tables, in each role, canonical rendering (reader and writer)
+	explore.Explore(-1, func(x *explore.C) {
+		h := explore.Pick(x, "h", hourTable...)
+		m := explore.Pick(x, "m", minSecTable...)
+		s := explore.Pick(x, "s", minSecTable...)
+		f := explore.Pick(x, "f", fracTable...)
+		st, en := byRole(x.Choose("role", 3), ((h*60+m)*60+s)*1000+f)
+		cs = Case{Doc: oneCue(st, en, "x"), Render: srt.DefaultRender(1)}
+	}, visit("instants"))
+	// (1i) cue numbers: two cues, each with every index form (k, absent, letters, 0, leading zeros, negative, digit+letter,
+	// '#'-prefixed, 20 digits, trailing dot, non-ASCII digit, signed, two numbers) x number-like text lines x form of the
+	// blank line (empty, blank, tab) x EOL
+	explore.Explore(-1, func(x *explore.C) {
+		var d srt.Doc
+		for k := 0; k < 2; k++ {
+			d = append(d, srt.Cue{Start: int64(k+1) * 2000, End: int64(k+1)*2000 + 1000, Lines: []srt.Line{{{Text: explore.Pick(x, "text", "x", "7", "+5", "0")}}}})
+		}
+		r := srt.DefaultRender(2)
+		r.Index[0] = x.Choose("index", srt.NIndexForms)
+		r.Index[1] = x.Choose("index", srt.NIndexForms)
+		r.BlankForm = explore.Pick(x, "blankform", "", " ", "\t")
+		r.EOL = explore.Pick(x, "eol", "\n", "\r\n", "\r")
+		cs = Case{Doc: d, Render: r}
+	}, rvisit("index2"))
+	// (1j) white space around the head lines: index form x padding of index/timing line x EOL x BOM x coordinates
+	explore.Explore(-1, func(x *explore.C) {
+		r := srt.DefaultRender(1)
+		r.Index[0] = x.Choose("index", srt.NIndexForms)
+		r.HeadPad = x.Choose("headpad", 4)
+		r.EOL = explore.Pick(x, "eol", "\n", "\r\n", "\r")
+		r.BOM = x.Bool("bom")
+		r.Coords = explore.Pick(x, "coords", "", " X1:1 X2:2 Y1:3 Y2:4")
+		cs = Case{Doc: oneCue(1000, 2000, "x"), Render: r}
+	}, rvisit("headpad"))
+	// (1k) arrow spacing x trailing matter x head padding x separator x fraction digits
+	explore.Explore(-1, func(x *explore.C) {
+		r := srt.DefaultRender(1)
+		r.Arrow = explore.Pick(x, "arrow", arrowsWide...)
+		r.Coords = explore.Pick(x, "coords", coordsWide...)
+		r.HeadPad = x.Choose("headpad", 4)
+		r.Sep = explore.Pick(x, "sep", ",", ".")
+		r.FracDigits = explore.Pick(x, "frac", 3, 1)
+		cs = Case{Doc: oneCue(1500, 2500, "x"), Render: r}
+	}, rvisit("arrows"))
+	// (1l) blank lines: 2 cues x 1..4 or 10 separating lines x their content x EOF form (up to 10 blank lines) x EOL x index present/absent
+	explore.Explore(-1, func(x *explore.C) {
+		d := append(oneCue(1000, 2000, "x"), oneCue(3000, 4000, "y")...)
+		r := srt.DefaultRender(2)
+		r.BlankBetw = explore.Pick(x, "blank", 1, 2, 3, 4, 10)
+		r.BlankForm = explore.Pick(x, "blankform", blankForms...)
+		r.EOF = explore.Pick(x, "eof", 0, 1, 2, 3, 4, 5, 11)
+		r.EOL = explore.Pick(x, "eol", "\n", "\r\n", "\r")
+		r.Index[1] = x.Choose("index", 2)
+		cs = Case{Doc: d, Render: r}
+	}, rvisit("blanks"))
+	// (1m) tag nesting: one run with each of the 16 emphasis/colour combinations x each of the 24 opening orders x
+	// mirrored or overlapping closing x tag case x unterminated
+	explore.Explore(-1, func(x *explore.C) {
+		st := explore.Pick(x, "style", biuc("", "red")...)
+		r := srt.DefaultRender(1)
+		r.TagOrder = x.Choose("tagorder", srt.NTagOrders)
+		r.CloseSame = x.Bool("closesame")
+		r.UpperTags = x.Bool("upper")
+		r.LeaveOpen = x.Bool("leaveopen")
+		cs = Case{Doc: srt.Doc{{Start: 1000, End: 2000, Lines: []srt.Line{{{Text: "x", Style: st}}}}}, Render: r}
+	}, rvisit("tags"))
+	// (1n) lazy tags between two runs on one line or on two lines: 16 x 16 combinations x 24 orders x closing discipline
+	explore.Explore(-1, func(x *explore.C) {
+		s1 := explore.Pick(x, "style", biuc("", "red")...)
+		s2 := explore.Pick(x, "style", biuc("", "red")...)
+		r := srt.DefaultRender(1)
+		r.Lazy = true
+		r.TagOrder = x.Choose("tagorder", srt.NTagOrders)
+		r.CloseSame = x.Bool("closesame")
+		lines := []srt.Line{{{Text: "x", Style: s1}, {Text: "y", Style: s2}}}
+		if x.Bool("twolines") {
+			lines = []srt.Line{{{Text: "x", Style: s1}}, {{Text: "y", Style: s2}}}
+		}
+		cs = Case{Doc: srt.Doc{{Start: 1000, End: 2000, Lines: lines}}, Render: r}
+	}, rvisit("tags2"))
+	// (1o) neighbouring runs: every pair of the 24 styles (8 emphasis combinations x no colour / hex / mixed-case name)
+	// x lazy x unterminated; the writer gets each of the three spellings of "no styling"
+	explore.Explore(-1, func(x *explore.C) {
+		s1 := explore.Pick(x, "style", biuc("", "#ff0000", "Yellow")...)
+		s2 := explore.Pick(x, "style", biuc("", "#ff0000", "Yellow")...)
+		r := srt.DefaultRender(1)
+		r.Lazy = x.Bool("lazy")
+		r.LeaveOpen = x.Bool("leaveopen")
+		wf := x.Choose("wform", 3)
+		cs = Case{Doc: srt.Doc{{Start: 1000, End: 2000, Lines: []srt.Line{{{Text: "x", Style: s1}, {Text: "y", Style: s2}}}}}, Render: r, WForm: wf}
+	}, visit("styles2"))
+	// (1p) colour values x forms of the font tag x tag case, followed by a colourless run written plainly or inside
+	// a colourless font tag
+	explore.Explore(-1, func(x *explore.C) {
+		col := explore.Pick(x, "colour", colourTable...)
+		r := srt.DefaultRender(1)
+		r.ColorQuote = x.Choose("quote", srt.NFontForms)
+		r.UpperTags = x.Bool("upper")
+		r.PlainFont = x.Choose("plainfont", 4)
+		cs = Case{Doc: srt.Doc{{Start: 1000, End: 2000, Lines: []srt.Line{{{Text: "x", Style: srt.Style{Color: col}}, {Text: "y"}}}}}, Render: r}
+	}, rvisit("colours"))
+	// (1q) every text atom followed on the same line by every joining atom (entity tails, tag tails, white space,
+	// combining mark, byte-order mark) in a plain or bold run x no-break space form x raw ampersand
+	explore.Explore(-1, func(x *explore.C) {
+		t1 := explore.Pick(x, "text", allTexts...)
+		t2 := explore.Pick(x, "join", joinTable...)
+		s2 := explore.Pick(x, "style", srt.Style{}, srt.Style{B: true})
+		r := srt.DefaultRender(1)
+		r.NBSPEntity = x.Bool("nbspentity")
+		r.RawAmp = x.Bool("rawamp")
+		cs = Case{Doc: srt.Doc{{Start: 1000, End: 2000, Lines: []srt.Line{{{Text: t1}, {Text: t2, Style: s2}}}}}, Render: r}
+	}, rvisit("atoms2"))
+	// (1r) every text atom as the only / first / last / middle line of a cue that is followed by another cue whose number is
+	// present, absent or garbage x line padding
+	explore.Explore(-1, func(x *explore.C) {
+		t := explore.Pick(x, "text", allTexts...)
+		var lines []srt.Line
+		switch x.Choose("pos", 4) {
+		case 0:
+			lines = []srt.Line{{{Text: t}}}
+		case 1:
+			lines = []srt.Line{{{Text: t}}, {{Text: "x"}}}
+		case 2:
+			lines = []srt.Line{{{Text: "x"}}, {{Text: t}}}
+		case 3:
+			lines = []srt.Line{{{Text: "x"}}, {{Text: t}}, {{Text: "z"}}}
+		}
+		r := srt.DefaultRender(2)
+		r.Index[1] = x.Choose("index", 3)
+		r.LineSpaces = x.Choose("linespaces", srt.NLineSpaces)
+		cs = Case{Doc: srt.Doc{{Start: 1000, End: 2000, Lines: lines}, {Start: 3000, End: 4000, Lines: []srt.Line{{{Text: "y"}}}}}, Render: r}
+	}, rvisit("atomlines"))
+	// (1s) many cues: n at the digit-count and power-of-two boundaries of the cue number x plain or number-like text x
+	// EOL x index form (k, absent, leading zeros, letters)
+	explore.Explore(-1, func(x *explore.C) {
+		n := explore.Pick(x, "n", manyCounts...)
+		numeric := x.Bool("numeric")
+		var d srt.Doc
+		for k := 0; k < n; k++ {
+			t := "x"
+			if numeric {
+				t = fmt.Sprint(k + 1)
+			}
+			d = append(d, srt.Cue{Start: int64(k) * 2000, End: int64(k)*2000 + 1500, Lines: []srt.Line{{{Text: t}}}})
+		}
+		r := srt.DefaultRender(n)
+		form := explore.Pick(x, "index", 0, 1, 4, 2)
+		for k := range r.Index {
+			r.Index[k] = form
+		}
+		r.EOL = explore.Pick(x, "eol", "\n", "\r\n", "\r")
+		cs = Case{Doc: d, Render: r}
+	}, rvisit("manycues"))
+	// (1s') many lines and runs: one cue (followed by a second one) with n lines of r runs each, styles cycling so that
+	// neighbouring runs differ x lazy x unterminated x EOL
+	explore.Explore(-1, func(x *explore.C) {
+		n := explore.Pick(x, "nlines", 4, 5, 9, 10, 16, 17, 100)
+		nr := explore.Pick(x, "nruns", 1, 4, 5, 9)
+		cyc := []srt.Style{{}, {B: true}, {I: true, Color: "red"}, {U: true}, {B: true, I: true, U: true, Color: "#FF0000"}}
+		var lines []srt.Line
+		for l := 0; l < n; l++ {
+			var ln srt.Line
+			for q := 0; q < nr; q++ {
+				ln = append(ln, srt.Run{Text: fmt.Sprintf("t%d.%d", l, q), Style: cyc[(l*nr+q)%len(cyc)]})
+			}
+			lines = append(lines, ln)
+		}
+		r := srt.DefaultRender(2)
+		r.Lazy = x.Bool("lazy")
+		r.LeaveOpen = x.Bool("leaveopen")
+		r.EOL = explore.Pick(x, "eol", "\n", "\r\n", "\r")
+		r.Index[1] = x.Choose("index", 2)
+		cs = Case{Doc: srt.Doc{{Start: 1000, End: 2000, Lines: lines}, {Start: 3000, End: 4000, Lines: []srt.Line{{{Text: "y"}}}}}, Render: r}
+	}, rvisit("manylines"))
+	// (1t) document length: a first text line of L characters, L sweeping so that each byte of the following
+	// line end / text line / blank line / cue number / timing line falls on the 4096- and 8192-byte marks x EOL x
+	// index present/absent x EOF form
+	explore.Explore(-1, func(x *explore.C) {
+		base := explore.Pick(x, "base", 3990, 8086)
+		l := base + x.Choose("len", 112)
+		d := srt.Doc{{Start: 1000, End: 2000, Lines: []srt.Line{{{Text: strings.Repeat("x", l)}}, {{Text: "y"}}}},
+			{Start: 3000, End: 4000, Lines: []srt.Line{{{Text: "z"}}, {{Text: "w"}}}}}
+		r := srt.DefaultRender(2)
+		r.EOL = explore.Pick(x, "eol", "\n", "\r\n", "\r")
+		r.Index[1] = x.Choose("index", 2)
+		r.EOF = explore.Pick(x, "eof", 0, 1, 2)
+		cs = Case{Doc: d, Render: r}
+	}, rvisit("length"))
+
+	if thorough {
+		// (1u) every instant of the four tables x hour digits x fraction digits x separator x role
+		explore.Explore(-1, func(x *explore.C) {
+			h := explore.Pick(x, "h", hourTable...)
+			m := explore.Pick(x, "m", minSecTable...)
+			s := explore.Pick(x, "s", minSecTable...)
+			f := explore.Pick(x, "f", fracTable...)
+			st, en := byRole(x.Choose("role", 3), ((h*60+m)*60+s)*1000+f)
+			r := srt.DefaultRender(1)
+			r.HourDigits = explore.Pick(x, "hours", 2, 1, 3)
+			r.FracDigits = explore.Pick(x, "frac", 3, 2, 1)
+			r.Sep = explore.Pick(x, "sep", ",", ".")
+			cs = Case{Doc: oneCue(st, en, "x"), Render: r}
+		}, rvisit("instants-rendered"))
+		// (1v) every ordered pair of text atoms as neighbouring runs of one line, second run plain or bold
+		explore.Explore(-1, func(x *explore.C) {
+			t1 := explore.Pick(x, "text", allTexts...)
+			t2 := explore.Pick(x, "text", allTexts...)
+			s2 := explore.Pick(x, "style", srt.Style{}, srt.Style{B: true})
+			r := srt.DefaultRender(1)
+			r.NBSPEntity = x.Bool("nbspentity")
+			r.RawAmp = x.Bool("rawamp")
+			cs = Case{Doc: srt.Doc{{Start: 1000, End: 2000, Lines: []srt.Line{{{Text: t1}, {Text: t2, Style: s2}}}}}, Render: r}
+		}, rvisit("atompairs"))
+	}
+
 	// (2) deviation ball around the baseline document over all model and rendering choice points
 	explore.Explore(bound, func(x *explore.C) { cs = gen(x, full, false) }, visit("ball"))
-	if c.Tier == core.Thorough {
-		// four simultaneous departures on the small profile (<=2 cues, lines, runs)
-		small := fullProfile(false)
+	if thorough {
+		// four simultaneous departures on the small profile (<=2 cues, lines, runs; value tables of the earlier rounds)
+		small := smallProfile()
 		explore.Explore(4, func(x *explore.C) { cs = gen(x, small, false) }, visit("ball4"))
 	}
+}
+
+func run(c *core.Ctx) {
+	bound := 2
+	if c.Tier == core.Thorough {
+		bound = 3
+	}
+	enumerate(c.Tier == core.Thorough, bound, func(sub string, x *explore.C, cs Case) bool {
+		if !c.Mine() {
+			return true
+		}
+		den := cs.Doc.Denote()
+		key, msg, out := CheckRead(cs)
+		nt := uint64(0)
+		if explore.Deviations(x.Trace) > 0 {
+			nt = core.Hash64("r", den, fmt.Sprintf("%+v", cs.Render))
+		}
+		cs.Dir = "read"
+		c.Record(sub+".read", out, nt, func() interface{} {
+			return map[string]interface{}{"choices": x.Trace, "bytes": string(cs.Doc.Bytes(cs.Render))}
+		})
+		if key != "" {
+			c.Violate("read", key, msg, cs, explore.Deviations(x.Trace)*1000+len(cs.Doc.Bytes(cs.Render)))
+		}
+		if !cs.skipWrite && representable(cs.Doc) {
+			key, msg, out = CheckWrite(cs.Doc, cs.WForm)
+			c.Record(sub+".write", out, core.Hash64("w", den, fmt.Sprint(cs.WForm)), nil)
+			if key != "" {
+				cs.Dir = "write"
+				c.Violate("write", key, msg, cs, explore.Deviations(x.Trace)*1000+len(den))
+			}
+		}
+		return c.Evals%4096 != 0 || !c.Expired()
+	})
 	c.ExtraMax["deviation_bound"] = float64(bound)
 }
 
@@ -412,7 +785,7 @@ func replay(sub string, raw json.RawMessage) (string, bool) {
 		return err.Error(), false
 	}
 	if cs.Dir == "write" {
-		key, msg, _ := CheckWrite(cs.Doc)
+		key, msg, _ := CheckWrite(cs.Doc, cs.WForm)
 		return msg, key != ""
 	}
 	key, msg, _ := CheckRead(cs)
@@ -422,12 +795,14 @@ func replay(sub string, raw json.RawMessage) (string, bool) {
 func init() {
 	core.Register(&core.Prop{
 		ID: "C01", Level: "exploration",
-		Rule: "a case = (ground-truth cue model, rendering choices) chosen by the E1 explorer: full cartesian product of a tiny grammar plus every document within B deviations from the baseline over all model and rendering choice points (cue count, instants, lines, runs, 7 styles, 18 text atoms; EOL, BOM, index form, blank lines, EOF form, separator, fraction digits, hour digits, arrow spacing, coordinates, lazy/unterminated tags, tag case, colour quoting, line padding, nbsp form); read direction: ReadFromSRT(render(model)) must denote the model; write direction: WriteToSRT(model) must satisfy the grammar and denote the model to the library reader and to an independent decoder; non-trivial = non-baseline case, distinct by (denotation, rendering)",
+		Rule: "a case = (ground-truth cue model, rendering choices) chosen by the E1 explorer: full cartesian products of small grammars and of boundary-complete value tables, plus every document within B deviations from the baseline over all model and rendering choice points. Value tables: cue count 0..3 (many-cue product: 9..1001); instants built from hours {0,1,9,10,23,24,99,100,123,999} x minutes/seconds {0,1,9,10,59} x milliseconds {0,1,5,9,10,50,90,99,100,500,900,990,999,103,120,123}; 10 end forms (zero-length, +1 ms .. +1 h, maximum); 19 styles (all 8 emphasis combinations; colours lower/upper/mixed-case hex, 3/6/8-digit hex, names, functional notation, bare digits, non-ASCII), 16 colour values in the colour product; 91 text atoms (escaped characters, entity and markup look-alikes as literal text, {\\an8}, cue-number and timing look-alikes, inner/outer blanks and tabs, no-break and ideographic space, byte-order-mark character, right-to-left, joiner sequences, lone combining mark, punctuation of the format). Rendering freedoms: EOL, BOM, 13 cue-number forms (k, absent, letters, 0, leading zeros, negative, signed, digit+letter, '#k', 'k.', 20 digits, non-ASCII digit, two numbers), 1..4 or 10 blank lines and their content (empty, blank, tab, two blanks), 7 EOF forms (unterminated, 0..4 or 10 blank lines), white space around the cue-number and timing lines, ',' or '.', 3/2/1 fraction digits, 2/1/3/4 hour digits, 10 arrow spacings, 13 kinds of trailing matter after the end time, lazy/unterminated/overlapping tags, the 24 opening orders of font/b/i/u, closing tags without opening ones, tag case, 11 forms of the font tag (quotes, blanks around '=', attribute case, neighbouring attributes), colourless font tags around plain runs, 7 line paddings, no-break space as entity or character, raw '&' before a blank; writer side additionally the three library spellings of 'no styling' (nil style, empty style, empty colour). Read direction: ReadFromSRT(render(model)) must denote the model; write direction: WriteToSRT(model) must satisfy the grammar and denote the model to the library reader and to an independent decoder; non-trivial = non-baseline case, distinct by (denotation, rendering)",
 		Scope: map[core.Tier]string{
-			core.Quick:    "core product (1 cue x <=2 lines x <=2 runs x 3 styles x 3 texts x EOL x index x EOF form x lazy tags) + 3-run product (3 styles x 5 texts incl. no-break-space-only) + index product (2 cues x 4 index forms each x digit-only lines x blank lines x EOL x EOF) + markup-state product (2 cues x <=2 lines x 3 styles x lazy/unterminated/upper-case tags x colour quoting) + deviation ball B=2 (<=2 cues, <=2 lines, <=2 runs)",
-			core.Thorough: "core product + 3-run product + deviation ball B=3 (<=3 cues, <=3 lines, <=3 runs) + B=4 on the <=2 profile",
+			core.Quick:    "core product (1 cue x <=2 lines x <=2 runs x 3 styles x 3 texts x EOL x index x EOF form x lazy tags) + 3-run product + index product (2 cues x 4 index forms each x digit-only lines x blank lines x EOL x EOF) + markup-state product + timing-line product + value-domain products: h x m x s x role x hour digits; fraction x digits x separator x role x coordinates; h x m x s x f x role; 13 x 13 cue-number forms x number-like text x blank-line content x EOL; head-line padding x index form x EOL x BOM; arrow x trailing matter x padding x separator; blank count x content x EOF form x EOL; 16 styles x 24 tag orders x closing discipline x case; 16 x 16 lazy style pairs x 24 orders; 24 x 24 neighbouring styles x lazy x unterminated x writer spelling; 16 colours x 11 font-tag forms x case x colourless font tag; 91 atoms x 21 joining atoms x plain/bold x nbsp form x raw '&'; 91 atoms x line position x next cue's number x 7 line paddings; 9..1001 cues x EOL x index form; 4..100 lines x 1..9 runs x lazy x unterminated x EOL; first-line length sweeping every byte of the following lines over the 4096- and 8192-byte marks x EOL x index x EOF + deviation ball B=2 over the widened tables (<=2 cues, <=2 lines, <=2 runs)",
+			core.Thorough: "all quick products + every instant x hour digits x fraction digits x separator x role + every ordered pair of the 91 atoms + deviation ball B=3 over the widened tables (<=3 cues, <=3 lines, <=3 runs) + B=4 on the <=2 profile with the value tables of the earlier rounds",
 		},
-		Assumptions: []string{"Go toolchain and standard library", "independent reference codec engine/ref/srt", "white-space-only runs and outer line white space are outside the SubRip denotation (the format cannot carry them)"},
-		Plain:       run, Replay: replay,
+		Assumptions: []string{"Go toolchain and standard library", "independent reference codec engine/ref/srt", "white-space-only runs and outer line white space are outside the SubRip denotation (the format cannot carry them)",
+			"a colourless or empty-colour font tag and a closing tag without an opening one denote no markup; colour values are compared verbatim (case-sensitive)",
+			"left out on purpose: text containing '-->' or Unicode line terminators (U+2028, U+0085), nested font tags, unknown tags, raw '<' and '&gt;' in documents (the sentence does not pin their meaning), lines of 64 KiB and more, sub-millisecond instants (C16)"},
+		Plain: run, Replay: replay,
 	})
 }
